@@ -87,15 +87,24 @@ def run(ctx):
     rv, sfields, sfn = sm.responder_versions(W)
     sev = W.ev(sfn.path)
     keys = set()
+    rnew = P.fns.get(sm.RESPONDER + "::new")
+    # which parameter of Responder::new is the long-term key (by type: the parameter list may change)
+    LTKP = next((i for i in range(1, (rnew.nargs if rnew else 0) + 1) if "LongTermKey" in rnew.locals[i]["ty"]), 3)
     for name, t in sfields.items():
-        if is_call(t, "Responder::new"):
-            keys.add(t[2][2])
+        if is_call(t, "Responder::new") and len(t[2]) >= LTKP:
+            keys.add(t[2][LTKP - 1])
     # identity of a key object = the expression that builds it: LongTermKey::new(load_seed(<config>)); several objects built that way from the
     # same configuration are the same identity (load_seed is a function of the configuration, checked below)
     def key_identity(k):
         if not (isinstance(k, tuple) and k and k[0] == "obj"):
             return None
         init = W.obj_init(k)
+        if isinstance(init, tuple) and init and init[0] == "phi":
+            # `LongTermKey::from_config(cfg)?` / `.expect(..)`: the value is the payload of the Ok alternative (a failed `?` builds no key)
+            oks_ = [a for a in init[1] if isinstance(a, tuple) and a and a[0] == "agg" and str(a[1]).endswith("Result::Ok")]
+            rest_ = [a for a in init[1] if a not in oks_]
+            if len(oks_) == 1 and all(is_call(a) and callee_name(a[1]) == "from_residual" for a in rest_):
+                init = oks_[0][2][0]
         if not is_call(init, "LongTermKey::new"):
             return None
         seed = values.strip_payload(init[2][0])
@@ -136,8 +145,8 @@ def run(ctx):
     # Responder public key string is that key's public key
     cs = W.ctor_fields(sm.RESPONDER)
     pk = cs[0][3].get("long_term_public_key") if cs else None
-    okpk = pk is not None and values.contains(pk, lambda s: is_call(s, "LongTermKey::public_key") and s[2][0] == ("param", cs[0][0].path, 3))
-    if not okpk and pk is not None and values.contains(pk, lambda s: s == ("param", cs[0][0].path, 3)):
+    okpk = pk is not None and values.contains(pk, lambda s: is_call(s, "LongTermKey::public_key") and s[2][0] == ("param", cs[0][0].path, LTKP))
+    if not okpk and pk is not None and values.contains(pk, lambda s: s == ("param", cs[0][0].path, LTKP)):
         # the key rendered through its Display implementation (`ltk.to_string()`): that implementation must print the public key
         disp = [f.path for f in P.fns.values() if f.impl_self == LTK and f.impl_trait == "core::fmt::Display" and f.path.endswith("::fmt")]
         if disp:
